@@ -1197,7 +1197,7 @@ SHARED_AXES += SHARED_AXES_EXT
 
 
 def shared_consts_net(rng, idx=0, axis=None, n_ops=None, kernel=None, oc=None, ic=None, hw=None, dtype=None,
-                      per_channel=None, extra_axis=None):
+                      per_channel=None, extra_axis=None, **ext):
     """`axis` (one of SHARED_AXES) names the single respect in which the consumers of the shared filter differ:
 
     same          nothing (pure reuse)                       bias        each operator has its own bias tensor
@@ -1215,7 +1215,7 @@ def shared_consts_net(rng, idx=0, axis=None, n_ops=None, kernel=None, oc=None, i
     if axis in SHARED_AXES_EXT:
         import netgen_shared
 
-        return netgen_shared.build(rng, idx, axis, n_ops=n_ops, dtype=dtype, per_channel=per_channel, kernel=kernel, oc=oc, ic=ic, hw=hw)
+        return netgen_shared.build(rng, idx, axis, n_ops=n_ops, dtype=dtype, per_channel=per_channel, kernel=kernel, oc=oc, ic=ic, hw=hw, **ext)
     dtype = dtype or ("int8" if axis in ("ifm_bits", "tconv") else rng.choice(["int8", "int8", "int8", "uint8", "int16"]))
     b = B(rng, f"pat{idx}_shared_consts", dtype)
     n_ops = n_ops or rng.choice([2, 2, 2, 3, 4])
